@@ -2,7 +2,21 @@
 from lib import common as C, scen, clientrun
 from checks.C03 import build_history
 
-THEOREMS = []
+THEOREMS = [
+    ("C14_rotation_clears",
+     "forall cfg r0 srv now w r w1, load_root fixed cfg (CRoot r0) srv now w = (Ok r, w1) -> "
+     "rotated (reference_root fixed r0 (w_store w)) r = true -> "
+     "st_ts (w_store w1) = None /\\ st_snap (w_store w1) = None /\\ st_root (w_store w1) = Some (SDoc r)"),
+    ("C14_no_constraint_timestamp",
+     "forall fx cfg r srv now w a w', st_ts (w_store w) = None -> "
+     "load_timestamp fx cfg r srv now w <> (Err E_Older a, w')"),
+    ("C14_no_constraint_snapshot",
+     "forall fx cfg r ts srv now w a w', st_snap (w_store w) = None -> "
+     "load_snapshot fx cfg r ts srv now w <> (Err E_Older a, w')"),
+    ("C14_rotated_iff",
+     "forall ref r, rotated ref r = false <-> role_keys ref 3 = role_keys r 3 /\\ role_keys ref 1 = role_keys r 1"),
+    ("C14_unrotated_keeps_protecting", "rollback_online_stmt fixed"),
+]
 
 BIG = [2, 7, 2**31, 2**32 + 5, 2**53 + 1, 2**63 - 1, 2**63]
 
@@ -49,10 +63,9 @@ def run(chk):
                 "overlapping, reordered) and a repository restarted at version 1; non-trivial = every case "
                 "(stored versions exceed the served ones); distinct by scenario")
     chk.assumptions = ["symbolic signatures", "one clock sample per cycle in the model"]
-    if THEOREMS:
-        chk.proof, fails = C.proof_gate("C14", THEOREMS)
-        for f in fails:
-            chk.broken(f, {"theorem_gate": f})
+    chk.proof, fails = C.proof_gate("C14")
+    for f in fails:
+        chk.broken(f, {"theorem_gate": f})
     C.ensure_harness()
     specs = gen(chk)
     built = [build_history(chk.rng, len(p[4]), p[1], p[2], p[3], p[4]) for p in specs]
